@@ -100,6 +100,7 @@ def correspondence(ctx):
             ctx.sample({"line": lines[50], "model wf": answers[50], "scheme": name})
     _cross_scheme(ctx, "c07-cross-after")
     _duplicate_spellings(ctx)
+    _not_a_list(ctx)
 
 
 def _through_from_string(ctx, name, bench, cons, objs, expected, line, m):
@@ -157,6 +158,25 @@ def _through_from_string(ctx, name, bench, cons, objs, expected, line, m):
                   "clause": "from_string(simplify=True, validate=True) %s, validate() on the simplified list %s" % (got2, exp2),
                   "python": "from univers.version_range import VersionRange as R; print(R.from_string(%r, simplify=True, validate=True))" % text})
         ctx.disagree(stream + ":simplify+validate", line, got2, exp2, True, d, spec=exp2)
+
+
+def _not_a_list(ctx):
+    """"every other list is rejected with a ValueError": an argument that is not a list or tuple of constraints (an empty
+    or non-empty str / bytes / range, a number, None, a dict, a set, an iterator) is refused with a ValueError; the empty
+    list and the empty tuple are accepted"""
+    from univers.versions import SemverVersion
+    c = VersionConstraint(comparator=">=", version=SemverVersion("1.0.0"))
+    cases = [("''", "", "err:ValueError"), ("b''", b"", "err:ValueError"), ("range(0)", range(0), "err:ValueError"), ("'abc'", "abc", "err:ValueError"),
+             ("b'ab'", b"ab", "err:ValueError"), ("range(2)", range(2), "err:ValueError"), ("5", 5, "err:ValueError"), ("None", None, "err:ValueError"),
+             ("{}", {}, "err:ValueError"), ("set()", set(), "err:ValueError"), ("iter([])", iter([]), "err:ValueError"),
+             ("{c}", {c}, "err:ValueError"), ("iter([c])", iter([c]), "err:ValueError"), ("[c, 'x']", [c, "x"], "err:ValueError"),
+             ("[None]", [None], "err:ValueError"), ("()", (), "ok:true"), ("[]", [], "ok:true"), ("(c,)", (c,), "ok:true"), ("[c]", [c], "ok:true")]
+    for label, arg, want in cases:
+        got = B.res_bool(lambda: VersionConstraint.validate(arg))
+        ctx.count("not-a-list", key=label, nontrivial=True, branch=want)
+        if got != want:
+            ctx.disagree("not-a-list", "validate(%s)" % label, got, want, True,
+                         {"argument": label, "clause": "validate(%s) gives %s, expected %s" % (label, got, want)}, spec=want)
 
 
 def search(ctx):
